@@ -2,7 +2,7 @@
    (nc_check => no_collision, class_check => C05_class_v); used for the non-vacuity example of Properties/C05.v. *)
 From Coq Require Import ZArith NArith PeanoNat List Bool Lia ZifyBool ZifyNat ZifyN String.
 From Trion Require Import Text.Types Expr.Denote Arm.Instr Arm.DisplayModel Arm.AsmStmtModel
-  Asm.CtxModel Asm.LayoutSpec Asm.LayoutWf Asm.LayoutEval Asm.LayoutInstr Asm.LayoutSim Asm.LayoutStep Asm.LayoutFinal Asm.LayoutBytes Asm.LayoutText.
+  Asm.CtxModel Asm.LayoutSpec Asm.LayoutWf Asm.LayoutEval Asm.LayoutInstr Asm.LayoutInstrD Asm.LayoutSim Asm.LayoutStage Asm.LayoutStep Asm.LayoutFinal Asm.LayoutBytes Asm.LayoutText.
 Import ListNotations.
 Open Scope N_scope.
 
@@ -88,3 +88,75 @@ Qed.
 
 Theorem class_check_sound fs E prog : class_check fs E (mkP1 None [] []) prog = true -> C05_class_v fs E prog.
 Proof. intros H pre e post s0. apply (class_check_from fs E prog _ H). Qed.
+
+(* ------------------------------------------------------------------ the wider class (deferred instructions of every template, .dfile) *)
+Definition denb (E : env) (a : arg) : bool := match den64 (rho E) a with Some _ => true | None => false end.
+Definition mem_okb (E : env) (a : arg) : bool :=
+  match a with
+  | AAddr (AAdd l r) =>
+      (match l with AIdent n => CtxModel.is_register n && denb E r | _ => false end) ||
+      (match r with AIdent n => CtxModel.is_register n && denb E l | _ => false end)
+  | _ => false
+  end.
+Definition staged_okb (E : env) (a : arg) : bool := denb E a || mem_okb E a.
+
+Definition stmt_okbw (E ek : env) (e : element_value) : bool :=
+  match e with
+  | ELabel _ | EDirective _ _ => true
+  | EInstruction name args =>
+      forallb (knownb ek) args ||
+      match template name with
+      | Some t => (match eval_pos t with
+                   | Some pos => match nth_error args pos with Some a => staged_okb E a | None => true end
+                   | None => false
+                   end) || no_eval t
+      | None => false
+      end
+  end.
+
+Fixpoint class_checkw (fsr : str -> option (list N)) (E : env) (s : p1) (l : list element_value) : bool :=
+  match l with
+  | [] => true
+  | e :: r => stmt_okbw E (p_env s) e && match pass1_step fsr s e with Some s1 => class_checkw fsr E s1 r | None => true end
+  end.
+
+Lemma denb_sound E a : denb E a = true -> den64 (rho E) a <> None.
+Proof. unfold denb. destruct (den64 (rho E) a); [discriminate|discriminate]. Qed.
+
+Lemma staged_okb_sound E a : staged_okb E a = true -> staged_ok E a.
+Proof.
+  unfold staged_okb. intros H. apply orb_prop in H. destruct H as [H|H]; [left; apply denb_sound; exact H|right].
+  unfold mem_okb in H. destruct a; try discriminate H. destruct a; try discriminate H.
+  apply orb_prop in H. destruct H as [H|H].
+  - destruct a1; try discriminate H. apply andb_prop in H. destruct H as (R & D).
+    exists s, true, a2. split; [exact R|]. split; [apply denb_sound; exact D|reflexivity].
+  - destruct a2; try discriminate H. apply andb_prop in H. destruct H as (R & D).
+    exists s, false, a1. split; [exact R|]. split; [apply denb_sound; exact D|reflexivity].
+Qed.
+
+Lemma stmt_okbw_sound fs path E ek e : stmt_okbw E ek e = true -> stmt_okx fs (rel_fs fs path) path E ek e.
+Proof.
+  destruct e as [n|name args|name args]; cbn [stmt_okbw stmt_okx]; [auto| |].
+  - intros _ _ v _. reflexivity.
+  - intros H. apply orb_prop in H. destruct H as [H|H].
+    + left. intros a Ha m Hm. rewrite forallb_forall in H. specialize (H a Ha). unfold knownb in H. rewrite forallb_forall in H.
+      specialize (H m Hm). apply orb_prop in H. destruct H as [H|H]; [now left|right]. unfold LayoutSim.lkE.
+      destruct (env_get ek m) as [v|]; [eauto|discriminate].
+    + right. destruct (template name) as [t|]; [|discriminate]. apply orb_prop in H. destruct H as [H|H].
+      * left. destruct (eval_pos t) as [pos|] eqn:EPo; [|discriminate]. exists t, pos. split; [reflexivity|]. split; [exact EPo|].
+        intros a Ha. rewrite Ha in H. apply staged_okb_sound. exact H.
+      * right. exists t. auto.
+Qed.
+
+Lemma class_checkw_from fs path E : forall l s, class_checkw (rel_fs fs path) E s l = true ->
+  forall pre e post s0, l = pre ++ e :: post -> pass1 (rel_fs fs path) s pre = Some s0 -> stmt_okx fs (rel_fs fs path) path E (p_env s0) e.
+Proof.
+  induction l as [|e0 r IH]; intros s H pre e post s0 Hl Hp; [destruct pre; discriminate|].
+  cbn [class_checkw] in H. apply andb_prop in H. destruct H as (H0 & H). destruct pre as [|e1 pre].
+  - cbn [app] in Hl. inversion Hl; subst. cbn [pass1] in Hp. inversion Hp; subst. apply stmt_okbw_sound. exact H0.
+  - cbn [app] in Hl. inversion Hl; subst e1 r. cbn [pass1] in Hp.
+    destruct (pass1_step (rel_fs fs path) s e0) as [s'|]; [|discriminate]. exact (IH s' H pre e post s0 eq_refl Hp).
+Qed.
+
+Theorem class_checkw_sound fs path E prog : class_checkw (rel_fs fs path) E (mkP1 None [] []) prog = true -> C05_class_vw fs path E prog.
+Proof. intros H pre e post s0. apply (class_checkw_from fs path E prog _ H). Qed.
